@@ -51,20 +51,28 @@ Proof. exact (let M := run_mono c hist in conj (m_rcpt1 _ _ M) (conj (m_rcpt2 _ 
 Print Assumptions C04_receipts_persist.
 
 (** honest client: "absence verified" = the consulted counterparty version really holds nothing at that key *)
-Theorem C04_honest_nonmembership other me pf id ph k :
-  honest_vnon other me pf id ph k = true ->
+Theorem C04_honest_nonmembership other me pf lh id ph k :
+  id <> lh -> honest_vnon other me pf lh id ph k = true ->
   exists t ver snap,
     consulted me id ph = Some (t, ver) /\ pf = PHonest ver k /\
     assocN ver (w_vers other) = Some snap /\ lookup snap k = None.
-Proof. exact (honest_nonmembership other me pf id ph k). Qed.
+Proof. exact (honest_nonmembership other me pf lh id ph k). Qed.
 Print Assumptions C04_honest_nonmembership.
 
 (** localhost (after the repair of F2): a client that verifies only at heights the chain itself has reached
-    and reports the chain's own block time accepts a timeout only once the chain itself has reached it *)
-Theorem C04_loopback_not_early {A} (e : Env A) c p ph nsr c' :
-  loopback_env e c -> timeout1_tao e c p ph nsr = (c', Ok) -> elapsed (timeout1 p) (self_h c) (self_t c) = true.
-Proof. exact (loopback_timeout_not_early e c p ph nsr c'). Qed.
+    and reports the chain's own block time accepts a timeout only once the chain itself has reached it ... *)
+Theorem C04_loopback_not_early {A} (e : Env A) c p ph nsr c' ch k :
+  chans c (p_sp p, p_sc p) = Some ch -> conns c (c_conn ch) = Some k -> loopback_client e c (k_client k) ->
+  timeout1_tao e c p ph nsr = (c', Ok) -> elapsed (timeout1 p) (self_h c) (self_t c) = true.
+Proof. exact (loopback_timeout_not_early e c p ph nsr c' ch k). Qed.
 Print Assumptions C04_loopback_not_early.
+
+(** ... and the 09-localhost client of Core/World.v (sentinel proof, proof height <= own height, own store,
+    own block time — what the `core` correspondence family checks against light_client_module.go) is one *)
+Theorem C04_world_localhost_is_loopback other me pf lh sc nc :
+  loopback_client (honest_env other me pf lh sc nc) (w_chain me) lh.
+Proof. exact (world_loopback other me pf lh sc nc). Qed.
+Print Assumptions C04_world_localhost_is_loopback.
 
 (** non-vacuity: a concrete state satisfies the invariant and a concrete 13-step history (duplicates, a failing
     application, an ORDERED timeout, multi-payload v2 receives) produces exactly the expected callbacks *)
